@@ -184,7 +184,9 @@ def unmodelled(res):
 
 def twin_result(req):
     r = real_twin(req)
-    if unmodelled(r[0]) or unmodelled(r[2]):
+    # an error the model does not know, or runs that differ: look again in a fresh interpreter (Loki keeps
+    # interpreter-global state; a genuine difference persists there)
+    if unmodelled(r[0]) or unmodelled(r[2]) or norm_graph(r[0]) != norm_graph(r[2]):
         r = isolated('twin', req) or r
     return r
 
